@@ -14,6 +14,7 @@ RULE = ('random-weight models built by the real build_net (tiny VGG-shaped front
         'end-of-line bias varied so that lines end at different steps or hit the length cap; sequences of 3-4 batches with equal and different batch sizes (1-4) and widths (64/128/256) on one '
         'model instance; transcribe_batch and run_ocr. non-trivial = batch with >= 2 lines decoded on a model that has decoded a different batch before; distinct = hash of (model, batches) Batches of 256 / 512 / 258 lines; a 2048-px line decoded for more than 500 steps; every third alphabet contains U+200B as an ordinary character. Alphabets of 40000 / 70000 characters; run_ocr on floating-point batches.')
 RULE += ' Round 6: The step-wise decoder interface with a harness-chosen prefix, look-ahead re-scoring and a final uncached step.'
+RULE += ' Round 7: Step-wise decodes with a final normalisation layer and attention output; hypotheses re-ordered before an uncached step.'
 ASSUMPTIONS = ['float32 logits compared within 2e-4 relative to the largest |logit| of the batch (largest relative difference on the unchanged tree is reported as observed maximum)',
                'steps at which the arg-max margin is below 1e-3 make later steps of that line incomparable (decoding may legitimately branch): skipped from there on',
                'termination is decided on decoding steps: at most W//4 + 2']
